@@ -1,6 +1,7 @@
 from datetime import date as datedate, datetime, timedelta
 import email.utils
 import http.client as httplib
+from copy import deepcopy
 from http.cookies import SimpleCookie
 import calendar
 
@@ -279,9 +280,11 @@ class HTTPResponse(BaseResponse, OmbottException):
         response._status_code = self._status_code
         response._status_line = self._status_line
         response._headers.clear()
-        response._headers.update(self._headers)
+        # this object may be raised again (an application constant, the errors of errors_map): what is done to
+        # `response` afterwards must not reach its multi-valued headers or its cookies
+        response._headers.update({k: (v[:] if isinstance(v, list) else v) for k, v in self._headers.items()})
         if self._cookies:
-            response._cookies = self._cookies
+            response._cookies = deepcopy(self._cookies)
         response.body = self.body
 
 
